@@ -23,6 +23,8 @@ fn enc_ents(tag: i64, l: &[Entity]) -> Out {
 /// everything the executor needs besides the world itself
 pub struct St {
     pub hs: Vec<Entity>,
+    /// the change-set slots of ops 80..86
+    pub cs: crate::joins::CsSlots,
     readers: HashMap<i64, Vec<ReaderId<ComponentEvent>>>,
     /// what happened inside lazy closures during the current maintain, in order
     log: Vec<LogItem>,
@@ -75,7 +77,7 @@ fn opt_tok(tag: i64, o: Option<(u64, i64)>) -> Out {
 }
 
 /// take ownership of a returned value: record it and forget it (it is not destroyed by the world)
-fn ret<T: Tokish>(t: T) -> (u64, i64) {
+pub(crate) fn ret<T: Tokish>(t: T) -> (u64, i64) {
     let r = (t.uid(), t.val());
     std::mem::forget(t);
     r
@@ -344,7 +346,7 @@ macro_rules! by_tracked_sid {
 
 impl Exec {
     pub fn new() -> Self {
-        Exec { world: World::new(), st: St { hs: Vec::new(), readers: HashMap::new(), log: Vec::new() } }
+        Exec { world: World::new(), st: St { hs: Vec::new(), cs: Default::default(), readers: HashMap::new(), log: Vec::new() } }
     }
 
     pub fn step(&mut self, code: i64, p: &[i64]) -> Out {
@@ -637,6 +639,8 @@ pub fn exec(world: &mut World, xs: &mut St, code: i64, p: &[i64]) -> Out {
                 let sid = p[0];
                 by_sid!(sid, st_op, world, xs, code, p)
             }
+            (80, _) => crate::joins::op_join(world, xs, p),
+            (81..=86, _) => crate::joins::op_changeset(xs, code, p),
             (99, 0) => {
                 xs.readers.clear();
                 let old = std::mem::replace(world, World::new());
